@@ -29,7 +29,9 @@ TCrash == IsEvent("Crash") /\ FALSE
 (* the mechanism log of the schedule: judged by AgwpeTrace.tla *)
 (* the transmit log of the schedule: judged by AgwpeTxTrace.tla *)
 TTxLog == IsEvent("TxLog") /\ UNCHANGED dummy /\ Consume
+(* how many frames the library's own log says it dropped in this schedule (used to attribute losses to the known finding) *)
+TDrops == IsEvent("Drops") /\ UNCHANGED dummy /\ Consume
 TMech == IsEvent("Mech") /\ UNCHANGED dummy /\ Consume
-TraceNext == TTxLog \/ TMech \/ TCrash \/ TApi \/ TReads \/ TTncData \/ TExchange \/ TMalformed
+TraceNext == TDrops \/ TTxLog \/ TMech \/ TCrash \/ TApi \/ TReads \/ TTncData \/ TExchange \/ TMalformed
 TraceSpec == TraceInit /\ [][TraceNext]_<<dummy, tvars>>
 =============================================================================
